@@ -71,11 +71,21 @@ def sampler_z_battery(rep, what):
     """native sampler_z against the reference on pseudo-random streams (used only to confirm a solver finding)"""
     import random
     rnd = random.Random(20240917)
+    cases = []
     for k in range(60):
         mu = rnd.uniform(-300, 300) if k % 3 else float(rnd.randint(-50, 50))
         sigmin = rnd.choice([1.2778336969128337, 1.298280334344292])
         sigma = sigmin if k % 5 == 0 else rnd.uniform(sigmin, 1.8205)
-        stream = [rnd.randrange(256) for _ in range(17 * 12)]
+        cases.append((mu, sigma, sigmin, [rnd.randrange(256) for _ in range(17 * 12)]))
+    # the tail of the base sampler: z0 = 18 (nine zero bytes), 17, 16, ... with either sign and all-zero / all-ones BerExp bytes, followed by
+    # ordinary trips - the rare draws a table-driven or unrolled rewrite gets wrong
+    tail = []
+    for mu, sigma, sigmin in ((0.0, 1.7, 1.2778336969128337), (-3.4, 1.5, 1.298280334344292), (100.6, 1.2778336969128337, 1.2778336969128337), (0.3, 1.8205, 1.298280334344292)):
+        for head in ([0] * 9, [0] * 8 + [1], [0] * 7 + [2, 0], [0] * 6 + [0x30, 0, 0], [0] * 5 + [0x40, 0, 0, 0]):
+            for sign in (0, 1):
+                for ber in ([0] * 7, [255] * 7):
+                    tail.append((mu, sigma, sigmin, head + [sign] + ber + [rnd.randrange(256) for _ in range(17 * 12)]))
+    for mu, sigma, sigmin, stream in tail + cases:
         ref = ref_sampler_z(mu, sigma, sigmin, stream)
         if ref is None:
             continue
